@@ -27,7 +27,7 @@ Definition tafter (t u : time) : bool :=
 (* t.Unix(): seconds, rounding towards minus infinity *)
 Definition tunix (t : time) : Z := match t with Some a => (a / 1000000000)%Z | None => (-62135596800)%Z end.
 
-Definition skey : Type := (N * N)%type.   (* robust.Id{Id, Reply} *)
+Notation skey := (N * N)%type (only parsing).   (* robust.Id{Id, Reply} *)
 
 Record session := Session {
   s_key : skey;
